@@ -839,6 +839,12 @@ class C16(runner.Prop):
         env = {k: v for k, v in os.environ.items() if k not in ('LD_PRELOAD', 'ASAN_OPTIONS', 'UBSAN_OPTIONS', 'PYTHONMALLOC')}
         env['PYTHONPATH'] = os.pathsep.join([pkg, str(runner.VERIF), str(runner.VERIF / '.deps')])
         env['LD_PRELOAD'] = rt
+        pre = subprocess.run([sys.executable, '-c', 'import atheris, vlib.fuzz_c16'], env=env, cwd=str(runner.VERIF), capture_output=True, text=True)
+        if pre.returncode != 0:
+            # the fuzzing front end itself cannot start (atheris not installed in .deps, ...): nothing was explored,
+            # which is a limit of this run, never a finding
+            ctx.note('coverage-guided phase skipped: ' + (pre.stderr.strip().splitlines() or ['cannot import atheris'])[-1][:200])
+            return
         work = tempfile.mkdtemp(prefix='c16-fuzz-', dir=str(runner.VERIF / '.build'))
         try:
             corpus = os.path.join(work, 'corpus')
@@ -866,6 +872,9 @@ class C16(runner.Prop):
             ctx.label('fuzz_campaign')
             if r.returncode != 0:
                 arts = [f for f in os.listdir(work) if f.startswith('crash-')]
+                if not arts and 'input_b64' not in case and not any(
+                        m in r.stderr for m in ('ERROR: libFuzzer', 'Sanitizer', 'AssertionError', 'deadly signal', 'Fatal Python error')):
+                    raise RuntimeError(f'fuzz front end failed without a finding (exit {r.returncode}): {r.stderr.strip()[-400:]}')
                 b64 = base64.b64encode(open(os.path.join(work, arts[0]), 'rb').read()).decode() if arts else ''
                 tail = ' | '.join(ln.strip() for ln in r.stderr.splitlines()[-30:] if 'Error' in ln or 'ERROR' in ln or 'assert' in ln or 'Fatal' in ln)[:400]
                 ctx.fail('fuzz/crash_or_assertion', f'exit {r.returncode}; input_b64={b64}; {tail}')
